@@ -6,6 +6,10 @@ mod gluegen;
 mod prng;
 
 fn main() {
+    // a run that takes absurdly long (an implementation or a tool that loops for ever) ends with an error instead of stalling the check
+    { let tier_thorough = std::env::args().any(|a| a == "thorough"); let limit: u64 = std::env::var("VERIF_HARNESS_DEADLINE_S").ok().and_then(|x| x.parse().ok()).unwrap_or(if tier_thorough { 3000 } else { 600 });
+      std::thread::spawn(move || { std::thread::sleep(std::time::Duration::from_secs(limit)); eprintln!("harness deadline of {} s exceeded (something loops for ever?)", limit); std::process::exit(3); }); }
+
     let argv: Vec<String> = std::env::args().collect();
     if argv.len() < 2 { eprintln!("usage: sfv_harness_wasm <gluegen|...> ..."); std::process::exit(2); }
     let r = match argv[1].as_str() {
